@@ -621,6 +621,21 @@ func (env *SpecEnv) elemsOf(v Value, x ast.Expr) []*Term {
 }
 
 func os2ipTerms(bs []*Term) *Term {
+	// the value of all n bytes of be(n, x), in order, is x
+	if len(bs) >= 2 {
+		if b0 := bs[0]; b0.Op == "select" && b0.Args[0].Op == "app" && b0.Args[0].Name == "be" && b0.Args[0].Val.Int64() == int64(len(bs)) {
+			all := true
+			for i, b := range bs {
+				if b.Op != "select" || b.Args[0].Key() != b0.Args[0].Key() || !b.Args[1].IsConst() || b.Args[1].Val.Int64() != int64(i) {
+					all = false
+					break
+				}
+			}
+			if all {
+				return b0.Args[0].Args[0]
+			}
+		}
+	}
 	r := mkInt64(0)
 	for _, b := range bs {
 		r = mkAdd(mkScale(r, big.NewInt(256)), b)
